@@ -25,7 +25,7 @@ def skolemize(goal, tag='sk'):
 def _ground_terms(es, want_sorts, limit):
     """ground (variable-free) sub-terms of the given sorts, in order of appearance"""
     seen = set()
-    out = {s.name(): [] for s in want_sorts}
+    out = {str(s): [] for s in want_sorts}
     hasvar_cache = {}
 
     def has_var(e):
@@ -41,18 +41,31 @@ def _ground_terms(es, want_sorts, limit):
         hasvar_cache[k] = r
         return r
 
+    def closed_lambda(e):
+        def free(x, depth):
+            if z3.is_var(x):
+                return z3.get_var_index(x) >= depth
+            if z3.is_quantifier(x):
+                return free(x.body(), depth + x.num_vars())
+            return any(free(c, depth) for c in x.children())
+        return not free(e.body(), e.num_vars())
+
     def walk(e):
         if e.get_id() in seen:
             return
         seen.add(e.get_id())
         if z3.is_quantifier(e):
+            if e.is_lambda():
+                sn = str(e.sort())
+                if sn in out and len(out[sn]) < limit and closed_lambda(e):
+                    out[sn].append(e)
             walk(e.body())
             return
         if z3.is_var(e):
             return
         for ch in e.children():
             walk(ch)
-        sn = e.sort().name()
+        sn = str(e.sort())
         if sn in out and not has_var(e) and not z3.is_int_value(e) and not z3.is_rational_value(e) \
                 and not z3.is_true(e) and not z3.is_false(e):
             if len(out[sn]) < limit:
@@ -135,8 +148,8 @@ def _frame_arrays(es, sorts):
             walk(e.body())
             return
         if z3.is_const(e) and z3.is_array(e) and e.decl().kind() == z3.Z3_OP_UNINTERPRETED:
-            if e.sort().range().name() in want and e.sort().domain() == z3.IntSort():
-                out.setdefault(e.sort().range().name(), []).append(e)
+            if str(e.sort().range()) in want and e.sort().domain() == z3.IntSort():
+                out.setdefault(str(e.sort().range()), []).append(e)
         for c in e.children():
             walk(c)
     for e in es:
@@ -163,12 +176,12 @@ def instantiate(hyps, goal, rounds=1, max_terms=12, extra=()):
         sorts = {}
         for q in qs:
             for k in range(q.num_vars()):
-                sorts[q.var_sort(k).name()] = q.var_sort(k)
+                sorts[str(q.var_sort(k))] = q.var_sort(k)
         goal_first = [z3.Not(g)]
         arrs = _frame_arrays(facts + qs, sorts)
         terms = _ground_terms(goal_first + facts + inst_qf, list(sorts.values()), max_terms + 6 * r)
         for e in list(extra) + offs:
-            sn = e.sort().name()
+            sn = str(e.sort())
             if sn in terms and all(not z3.eq(e, t) for t in terms[sn]):
                 terms[sn].append(e)
         if 'Int' in terms:
@@ -181,7 +194,7 @@ def instantiate(hyps, goal, rounds=1, max_terms=12, extra=()):
                         terms[sn].append(e)
         new = []
         for q in list(qs):
-            cands = [terms.get(q.var_sort(k).name(), []) for k in range(q.num_vars())]
+            cands = [terms.get(str(q.var_sort(k)), []) for k in range(q.num_vars())]
             total = 1
             for c in cands:
                 total *= max(1, len(c))
@@ -265,6 +278,17 @@ def decide(axioms, vc, budget_s, pins=None, want=None, strategies=('inst', 'z3',
             except z3.Z3Exception as ex:
                 continue
             res['tried'].append(('pin', r, round(time.time() - t0, 3)))
+            if r == 'unknown':
+                # candidate model without the quantified axioms over arrays/frames (replay on the real code is the arbiter)
+                light = [h for h in hyps if not (z3.is_quantifier(h) and any(h.var_sort(k).kind() in (z3.Z3_ARRAY_SORT,) for k in range(h.num_vars())))]
+                try:
+                    r2, s2 = _check(light + [z3.Not(vc.goal)] + list(pin), min(max(budget_s - (time.time() - t0), 0.5), 5) * 1000)
+                except z3.Z3Exception:
+                    r2 = 'unknown'
+                res['tried'].append(('pin-light', r2, round(time.time() - t0, 3)))
+                if r2 == 'sat':
+                    r, s = r2, s2
+                    res['candidate_only'] = True
             if r == 'sat':
                 res.update(status='sat', by='pinned')
                 res['pin'] = [str(p) for p in pin]
@@ -366,20 +390,28 @@ def discharge(vcs, axioms, budget_s=10, nproc=16, pins=None, want=None, retry_fa
 
 
 def cover(vcs, axioms, pins, budget_s=5, nproc=16):
-    """reachability / non-vacuity: are the hypotheses of these VCs satisfiable (with pinned sizes)?"""
+    """reachability / non-vacuity: are the hypotheses of these VCs satisfiable (with pinned sizes)?
+    sat (also without the array-quantified axioms, which only restrict further ghost functions) > unknown > unsat"""
+    def light(hs):
+        return [h for h in hs if not (z3.is_quantifier(h) and any(h.var_sort(k).kind() == z3.Z3_ARRAY_SORT for k in range(h.num_vars())))]
+
     def job(vc):
-        out = 'unknown'
+        seen_unknown, seen_unsat = False, False
         for pin in (pins or [[]]):
-            try:
-                r, s = _check(list(axioms) + list(vc.hyps) + list(pin), budget_s * 1000 / max(1, len(pins or [1])))
-            except z3.Z3Exception:
-                continue
-            if r == 'sat':
-                return {'status': 'sat'}
-            if r == 'unsat' and not pin:
-                return {'status': 'unsat'}
-            if r == 'unsat':
-                out = 'unsat-pinned'
-        return {'status': out}
-    res = run_pool([(k, (lambda vc=vc: job(vc))) for k, vc in enumerate(vcs)], nproc=nproc, hard_timeout=budget_s + 5)
+            per = budget_s * 1000 / max(1, len(pins or [1]))
+            for hyps in (list(axioms) + list(vc.hyps), light(list(axioms) + list(vc.hyps))):
+                try:
+                    r, s = _check(hyps + list(pin), per)
+                except z3.Z3Exception:
+                    r = 'unknown'
+                if r == 'sat':
+                    return {'status': 'sat'}
+                if r == 'unsat':
+                    seen_unsat = True
+                    break
+                seen_unknown = True
+        if seen_unknown:
+            return {'status': 'unknown'}
+        return {'status': 'unsat-pinned' if pins else 'unsat'}
+    res = run_pool([(k, (lambda vc=vc: job(vc))) for k, vc in enumerate(vcs)], nproc=nproc, hard_timeout=budget_s * 2 + 5)
     return [res[k].get('status') for k in range(len(vcs))]
